@@ -117,6 +117,31 @@ def exact_case(task):
                                                                         "dictionary round trip"][variant],
                                     "log_pdf": lpv, "log_pdf_fresh_build": lp, "expected": -log_count_ref})
                     break
+            # the same density on trees whose internal layout has gaps: after a subtree was cut out (the pruned tree is
+            # scored against its own count), after it was grafted back, and after a dictionary round trip of either
+            if f.K >= 2:
+                from phyclone.tree import Tree
+                for _rep in range(2):
+                    t0, nm = gen.build_tree(f, data, child_order_rng=rng0)
+                    i = int(rng0.integers(0, f.K))
+                    sub = t0.get_subtree(nm[i])
+                    par = t0.get_parent(nm[i])
+                    t0.remove_subtree(sub)
+                    back = t0.copy()
+                    back.add_subtree(sub, parent=None if par == t0.root_node_name else par)
+                    back.update()
+                    for label, tv in (("after a subtree was cut out", t0), ("after the subtree was grafted back", back),
+                                      ("after cutting, grafting and a dictionary round trip", Tree.from_dict(back.to_dict())),
+                                      ("after cutting and a dictionary round trip", Tree.from_dict(t0.to_dict()))):
+                        fv, _nodes = gen.tree_to_forest(tv)
+                        refv = refmodel.count_orders(fv)
+                        lpv = float(RootPermutationDistribution.log_pdf(tv))
+                        part.count("layout_variant_evaluations")
+                        if not abs(-lpv - refv) <= 1e-9 * (1 + abs(refv)):
+                            part.violation("log_pdf is not minus log of the number of compatible orders on a tree %s "
+                                           "(gaps in the internal node positions)" % label,
+                                           {"forest": fv.describe(), "log_pdf": lpv, "expected": -refv})
+                            break
             dev = abs(-lp - log_count_ref)
             part.maxi("max_log_pdf_dev", dev)
             if not dev <= 1e-9 * (1 + abs(log_count_ref)):
